@@ -85,6 +85,8 @@ def check_C13(tier, seed):
     # constructors / stocks / lifetime models rejecting wrong shapes and dims: single-call vectors
     from .checks_ctor import run_ctor
     run_ctor(out, "C13", tier)
+    from .checks_traces import run_traces
+    run_traces(out, "C13", tier)
     out.assumptions += [
         "ShapeInv, FailedCallsChangeNothing and InputsUnchanged are TLC-checked on the contract; the replay re-checks "
         "values.shape == dims.shape and compares every register with the specification after every step of every behaviour",
@@ -103,6 +105,8 @@ def check_C15(tier, seed):
               ["Prop_C06", "Prop_C05"], "C15", probe_alias=True)
     from .checks_ctor import run_inputs
     run_inputs(out, "C15", tier)
+    from .checks_traces import run_traces
+    run_traces(out, "C15", tier)
     out.assumptions += [
         "independence of results is tested by writing into the result's values, into the source's values and by editing the "
         "result's dimension set in place, then comparing ALL registers with the specification (registers hold values there)",
